@@ -1,6 +1,9 @@
 (* C01 -- witnesses (by vm_compute) that each hypothesis packed into `guarded` is NECESSARY: without it the faithful
-   implementation model M lets a container change, exactly as static-frame 0.8.8 does. *)
-Require Import SF.Prelude SF.Heap Gen.Gen_c01.
+   implementation model M lets a container change, exactly as static-frame 0.8.8 does.
+   (The former witnesses about pickling -- Index._positions and ArrayGO._array left writeable by __setstate__ -- were deleted when
+   /repo commits 72854e7 and f0b8a42 repaired them; the regenerated table now says every array slot is re-frozen, see
+   Properties/C01.v C01_setstate_refreezes_every_array_slot, and the histories are kept as regression cases in the check module.) *)
+Require Import SF.Prelude SF.Heap.
 Local Open Scope nat_scope.
 
 (* FINDING C01-readonly-alias.  a = np.array([1,2,3]); v = a[:]; v.flags.writeable = False; s = sf.Series(v); a[0] = 99
@@ -26,32 +29,3 @@ Proof.
   split; [vm_compute; reflexivity|]. split; [vm_compute; repeat constructor|]. vm_compute. discriminate.
 Qed.
 Print Assumptions C01_own_data_view_refuted.
-
-(* FINDING C01-pickle-positions, with the re-freeze flags READ FROM THE CURRENT SOURCE (Gen_c01.pickle_flags_index).
-   i = pickle.loads(pickle.dumps(sf.Index((10,20,30)))); p = i.positions; p[0] = 99
-   Index.__setstate__ re-freezes _labels only: the unpickled _positions array is writeable and is handed out.
-   (Once __setstate__ freezes _positions too this witness no longer compiles and must be deleted.) *)
-Theorem C01_pickle_positions_refuted : exists h1 h2 c,
-  guarded w0 (h1 ++ h2) = false /\
-  c < length (w_conts (M_run w0 h1)) /\
-  cont_obs (M_run w0 (h1 ++ h2)) c <> cont_obs (M_run w0 h1) c.
-Proof.
-  exists [SConstruct [FromVals [10; 20; 30]%Z; FromVals [0; 1; 2]%Z]; SDerive 0 (pickle_dsrcs_from 0 pickle_flags_index); SExpose 1 1],
-         [SWrite 0 0 99%Z], 1.
-  split; [vm_compute; reflexivity|]. split; [vm_compute; repeat constructor|]. vm_compute. discriminate.
-Qed.
-Print Assumptions C01_pickle_positions_refuted.
-
-(* ... and the array handed out after the round trip is writeable (the "read-only status" part of the property) *)
-Theorem C01_pickle_positions_writeable_refuted : exists hist,
-  callers_obs (M_run w0 hist) = [([0; 1; 2]%Z, true)].
-Proof.
-  exists [SConstruct [FromVals [10; 20; 30]%Z; FromVals [0; 1; 2]%Z]; SDerive 0 (pickle_dsrcs_from 0 pickle_flags_index); SExpose 1 1].
-  vm_compute. reflexivity.
-Qed.
-Print Assumptions C01_pickle_positions_writeable_refuted.
-
-(* ArrayGO has no __setstate__ at all (FINDING C01-pickle-arraygo) *)
-Theorem C01_pickle_arraygo_refuted : pickle_flag_arraygo = false.
-Proof. reflexivity. Qed.
-Print Assumptions C01_pickle_arraygo_refuted.
